@@ -84,6 +84,12 @@ Theorem C03_empty_operand_clause_without_grouping : forall d items g,
   d_aggr_clause d items g None = Ok (mkD [] (map fst items) [([], map (fun _ => VNull) items)]).
 Proof. exact d_aggr_clause_empty. Qed.
 
+(* min / max need a measure or a remaining grouping identifier: otherwise the statement is rejected with 1-1-1-8 *)
+Theorem C03_minmax_without_measures_and_identifiers_rejected : forall op d g hav,
+  (op = AMin \/ op = AMax) -> d_ms d = [] -> group_ids (d_ids d) g = [] ->
+  (check_grouping d g = Ok tt -> d_aggr op d g hav = Err "1-1-1-8"%string) /\ (forall d', d_aggr op d g hav <> Ok d').
+Proof. exact d_aggr_minmax_no_component. Qed.
+
 Theorem C03_sample_variance_of_one_value : forall v q,
   to_q v = Some q -> agg_vals AVarSamp [v] = Ok VNull /\ agg_vals AStddevSamp [v] = Ok VNull.
 Proof. exact var_samp_single. Qed.
@@ -133,7 +139,13 @@ Example C03_example :
     = Ok (["Me_9"%string; "Me_8"%string], [([VInt 1], [VInt 3; VInt 3]); ([VInt 3], [VInt 4; VInt 1])]) /\
   bind (d_aggr_clause (mkD (d_ids C03_D) (d_ms C03_D) []) [("Me_9"%string, IAgg ASum (CCol "Me_1")); ("Me_8"%string, ICount)] GNone None)
        (fun d => Ok (d_rows d)) = Ok [([], [VNull; VNull])] /\
-  bind (d_aggr ASum (mkD (d_ids C03_D) (d_ms C03_D) []) GNone None) (fun d => Ok (d_rows d)) = Ok [].
+  bind (d_aggr ASum (mkD (d_ids C03_D) (d_ms C03_D) []) GNone None) (fun d => Ok (d_rows d)) = Ok [] /\
+  bind (d_aggr_clause C03_D [("Me_9"%string, IAgg AMax (CCol "Id_2")); ("Me_8"%string, IAgg ACount (CCol "Id_2"))] by1
+          (Some (HUn Not (HUn IsNull (HAgg ASum (CCol "Me_1")))))) (fun d => Ok (d_rows d))
+    = Ok [([VInt 1], [VStr "C"; VInt 3]); ([VInt 3], [VStr "A"; VInt 1])] /\
+  d_aggr AMin (mkD (d_ids C03_D) [] [([VInt 1; VStr "A"], [])]) GNone None = Err "1-1-1-8"%string /\
+  bind (d_aggr AMax (mkD (d_ids C03_D) [] [([VInt 1; VStr "A"], []); ([VInt 1; VStr "B"], [])]) by1 None) (fun d => Ok (d_rows d))
+    = Ok [([VInt 1], [])].
 Proof. vm_compute. repeat split. Qed.
 
 (* the hypotheses of the order-independence theorems are satisfiable *)
@@ -159,6 +171,7 @@ Print Assumptions C03_count_without_complete_datapoint.
 Print Assumptions C03_empty_operand_standalone.
 Print Assumptions C03_empty_operand_clause_without_grouping.
 Print Assumptions C03_sample_variance_of_one_value.
+Print Assumptions C03_minmax_without_measures_and_identifiers_rejected.
 Print Assumptions C03_agg_vals_perm.
 Print Assumptions C03_agg_perm.
 Print Assumptions C03_agg_perm_clause.
